@@ -104,6 +104,16 @@ Definition dec_wsec (s : sexp) : option wsec :=
   | _ => None
   end.
 
+Definition dec_sfield (s : sexp) : option sfield :=
+  match s with
+  | SList [SStr "param"; SStr fn; ty; n; d0; cs] =>
+      do ty' <- dec_ostr ty; do n' <- dec_str n; do d' <- dec_str d0; do cs' <- dec_strs cs; Some (SFParam fn ty' n' d' cs')
+  | SList [SStr "var"; SStr fn; n; d0; cs] => do n' <- dec_str n; do d' <- dec_str d0; do cs' <- dec_strs cs; Some (SFVar fn n' d' cs')
+  | SList [SStr "raises"; SStr fn; n; d0; cs] => do n' <- dec_str n; do d' <- dec_str d0; do cs' <- dec_strs cs; Some (SFRaises fn n' d' cs')
+  | SList [SStr "returns"; SStr fn; d0; cs] => do d' <- dec_str d0; do cs' <- dec_strs cs; Some (SFReturns fn d' cs')
+  | _ => None
+  end.
+
 Definition enc_pair (p : str * str) : sexp := SList [enc_str (fst p); enc_str (snd p)].
 
 (* string-function oracle: ("str" name args...) *)
@@ -182,6 +192,12 @@ Definition run_C13 (s : sexp) : sexp :=
       match dec_ctx c, as_bool ra, dec_strs ls with
       | Some c', Some ra', Some ls' => SList (map enc_gsec (parse_sphinx c' ra' ls'))
       | _, _, _ => bad_input
+      end
+  | SList [SStr "sspec"; c; ra; text; fs] =>
+      match dec_ctx c, as_bool ra, dec_strs text, as_list_of dec_sfield fs with
+      | Some c', Some ra', Some t', Some fs' =>
+          SList [SList (map enc_str (render_sphinx t' fs')); SList (map enc_gsec (expect_sphinx c' ra' t' fs')); of_bool (wf_sphinx t' fs')]
+      | _, _, _, _ => bad_input
       end
   | SList (SStr "str" :: SStr name :: args) => run_str name args
   | _ => bad_input
